@@ -44,12 +44,16 @@
 //	                      some over-capacity S is itself an assigned zone, else fit:union-of-zones (D7). Reported
 //	                      when the op changed the family of over-capacity sets.
 //	strict-types          strict request: zone ⊆ nodes whose type is among the requested types (types passed
-//	                      at creation plus types added by successful Reallocs)
+//	                      at creation plus types added by successful Reallocs); sig suffix :unknown-node when the
+//	                      only offending nodes are ids that do not exist in the allocator at all
 //	normal-memory         every zone assigned or changed by the op contains a node with normal memory
 //	superset-moves        every previously live id is still live and zone' ⊇ zone
 //	reservation-moved     priority Reservation (other than a Realloc requester): zone' = zone
 //	realloc-removed-nodes Realloc requester: zone' ⊇ zone
 //	updates-exact         returned zone = AssignedZone(requester); returned map = {id≠requester: zone changed → zone'}
+//
+// Witnesses hold the node set and the concrete operation list, shrunk greedily (operations are dropped while the
+// same check|sig still fires). --replay re-executes that list (up to 20 times if silent: the allocator iterates maps).
 //
 // ctx.See rule: C06 — one hash per distinct history that contains ≥1 failed operation and ≥1 late commit
 // attempt (machine + all ops + outcomes). C07 — one hash per distinct successful op that moved ≥1 other
